@@ -258,6 +258,7 @@ def finish(check, agg, tier, sd, t0, audited=0):
         "violations_total": len(agg.violations),
         "violations_known_findings": {k: v[1] for k, v in known.items()},
         "violations_unlisted": len(unknown),
+        "violations_by_kind_and_config": _by_kind(agg.violations),
     }
     cov.update(_jsonable(check.coverage_extra(agg)))
     ev = {
@@ -291,6 +292,14 @@ def finish(check, agg, tier, sd, t0, audited=0):
         print("[%s] %d unlisted violation(s); first: %s" % (check.id, len(unknown), json.dumps(_jsonable(unknown[0]))[:600]))
         return 1
     return 0
+
+
+def _by_kind(violations):
+    c = collections.Counter()
+    for rec in violations:
+        case = rec.get("case", {})
+        c["%s|%s|%s" % (rec["kind"], case.get("config", ""), case.get("tname", case.get("scope", "")))] += 1
+    return dict(sorted(c.items()))
 
 
 def validate_evidence(ev):
